@@ -38,7 +38,10 @@ def main(argv=None):
     # 4-5 leaves with dup, hgt, sloss symbolic (cheaper per input: more shapes, deeper trees)
     mid2 = [SR.random_super_input(rng, rng.randint(4, 5), rng.randint(2, 4), rng.randint(2, 4), False) for _ in range(30 if q else 0)]
     deep = [SR.random_super_input(rng, rng.randint(5, 6), rng.randint(2, 4), rng.randint(2, 3), False) for _ in range(150 if q else 600)]
+    sim = SR.simulated_inputs(rng, 80 if q else 800, 6, 4, 4, False)
     sections = [
+        ("inputs simulated forward from the event model (segment losses, gains below the root), dup/hgt/sloss symbolic",
+         [(d, SR.runs_for(algos, ["any"], FLAGS, "dhs")) for d in sim], False),
         ("call history: the same solver called earlier in the same interpreter (same input at default costs, sibling input at other costs), "
          "then explored with five symbolic costs", [(d, SR.history_runs(algos, FLAGS)) for d in hist], False),
         ("4-5 leaves, dup/hgt/sloss symbolic (spe=0, floss=1), any + all", [(d, SR.runs_for(algos, ["any", "all"], FLAGS, "dhs")) for d in mid2], False),
